@@ -43,14 +43,19 @@ KIND_INDEX = {"b": 0, "i": 1, "u": 2, "font": 3}
 def color_text(c):
   if "name" in c:
     return c["name"]
+  if "raw" in c:
+    return c["raw"]
   r, g, b = c["hex"]
   s = "#%02x%02x%02x" % (r, g, b)
   return s.upper() if c.get("upper") else s
 
 
 def color_rgba(c):
+  """None: not a colour the reader knows (the tag then changes nothing)"""
   if "name" in c:
     return HTML4_COLORS[c["name"].lower()] + (255,)
+  if "raw" in c:
+    return None
   r, g, b = c["hex"]
   return (r, g, b, 255)
 
@@ -145,7 +150,8 @@ def expected(desc, short_brace="literal"):
         elif k == "u":
           u = True
         else:
-          col = color_rgba(tag["color"])
+          c = color_rgba(tag["color"])
+          col = c if c is not None else col
         why[KIND_INDEX[k]] = form_label(tag)
       for ch in text:
         lines[-1] += ch
@@ -316,7 +322,9 @@ def colors():
                     st.sampled_from(sorted(HTML4_COLORS)), st.sampled_from([0, 0, 0, 1, 2]))
   comp = st.one_of(st.integers(0, 255), st.sampled_from([0, 255, 128, 1, 254]))
   hexes = st.builds(lambda r, g, b, up: {"hex": [r, g, b], "upper": up}, comp, comp, comp, st.booleans())
-  return st.one_of(names, hexes)
+  # values that are not colours for the reader (3-digit hex is common in the wild): the tag is ignored, the text is kept
+  unknown = st.builds(lambda v: {"raw": v}, st.sampled_from(["#F00", "bogus", "#12345", "rgb(1,2)", "#ggg", "ff0000"]))
+  return st.one_of(names, hexes, names, hexes, unknown)
 
 
 _EXTRA = ["", "", "", "", ' face="Arial"', ' size="4"', " size=12"]
